@@ -98,7 +98,9 @@ def handlePIPECB (args : List String) : String :=
       let gs := if gidx = "-" then [] else (gidx.splitOn ",").map (fun s => s.toNat?.getD 0)
       one ++ String.join (gs.map fun i =>
         s!" G{i}=" ++ showOutWith (catchGradualFromBytes ieeeB ieeeCasts A CA SA driverFuel 0.0 bs inp i cv)
-          (fun a => s!"{h64 a.stars},{a.nFruits},{a.nDroplets},{a.nTinyDroplets}"))
+          (fun a => match a with
+            | some a => s!"{h64 a.stars},{a.nFruits},{a.nDroplets},{a.nTinyDroplets}"
+            | none => "none"))
   | _ => "bad-pipe-catchb"
 
 end Rosu.PipelineBytes.Wire
